@@ -883,7 +883,7 @@ class Cylinder(BaseConstraint):
             lies inside or outside the constrained region
         """
         x, y, z = coords[:]
-        if isinstance(x, float):
+        if np.ndim(x) == 0:
             x, y, z = [x], [y], [z]
         nPoints = np.shape(np.array(coords).reshape(3, -1))[1]
         inFlag = np.zeros(nPoints, dtype=bool)
